@@ -76,12 +76,18 @@ func (c *Case) Start(extra ...string) (*Proc, error) {
 	if err != nil {
 		return nil, err
 	}
-	args := []string{"prog.mro", "sim", "--psdir=" + c.PsDir(), "--jobmode=local", "--disable-ui"}
-	hasRetry := false
+	args := []string{"prog.mro", "sim", "--psdir=" + c.PsDir(), "--disable-ui"}
+	hasRetry, hasMode := false, false
 	for _, a := range extra {
 		if strings.HasPrefix(a, "--autoretry") {
 			hasRetry = true
 		}
+		if strings.HasPrefix(a, "--jobmode") {
+			hasMode = true
+		}
+	}
+	if !hasMode {
+		args = append(args, "--jobmode=local")
 	}
 	if !hasRetry {
 		// (jobmanagers/retry.json sets a default of 2)
